@@ -16,73 +16,11 @@
       xent    := xsa succ?                          (a successor that is already a table entry: 0)
       event   := as in `miter`
 -/
-import PyIkev2.Model.Handlers
+import PyIkev2.Model.Whole
 import PyIkev2.Model.MachineCmd
 
 namespace PyIkev2.HandlersCmd
 open PyIkev2 PyIkev2.Impl PyIkev2.Wire PyIkev2.MachineCmd
-
-/-! ### the whole-model tape: oracle values, the extension of every IKE_SA object, the configurations -/
-
-structure XWorld where
-  tape : Impl.Tape
-  exts : List (Bytes × Ext)                  -- keyed by the object's own SPI
-  confs : List (Bytes × Bytes × Conf)        -- (my address, peer address) → connection
-  deriving Repr
-
-def emptyConf : Conf :=
-  { proposal := { num := 0, proto := 0, spi := [], transforms := [] }, protect := [], myIdType := 0, myIdData := [],
-    peerIdType := 0, peerIdData := [], dpd := 0, lifetime := 0 }
-
-def XWorld.extOf (w : XWorld) (spi : Bytes) : Option Ext := (w.exts.find? fun e => e.1 = spi).map (·.2)
-
-def XWorld.put (w : XWorld) (spi : Bytes) (e : Ext) : XWorld :=
-  if w.exts.any fun x => x.1 = spi then { w with exts := w.exts.map fun x => if x.1 = spi then (spi, e) else x }
-  else { w with exts := w.exts ++ [(spi, e)] }
-
-/-- the object for a core: its extension from the store (a missing one is a correspondence failure) -/
-def XWorld.obj (w : XWorld) (c : SaCore) : XSa × Bool :=
-  match w.extOf c.mySpi with
-  | some e => ({ core := c, ext := e }, false)
-  | none => ({ core := c, ext := { conf := emptyConf } }, true)
-
-def runOn (w : XWorld) (s : Sa) (h : HM HRes) : XWorld × HOut :=
-  let (me, b1) := w.obj s.core
-  let (succ, b2) : Option XSa × Bool := match s.succ with
-    | some n => let (x, b) := w.obj n; (some x, b)
-    | none => (none, false)
-  let o := runH h me succ { w.tape with bad := w.tape.bad || b1 || b2 }
-  let w := { w with tape := o.tape }
-  let w := w.put o.me.core.mySpi o.me.ext
-  let w := match o.succ with | some n => w.put n.core.mySpi n.ext | none => w
-  (w, { sa := { core := o.me.core, succ := o.succ.map (·.core) }, res := o.res, nl := o.nl })
-
-def asRequest (h : HM Msg) : HM HRes := do let r ← h; pure (.request r)
-
-/-- the real handlers as an instance of the shell's parameter -/
-def concreteHandlers : Handlers XWorld :=
-  { req := fun w s now m => match requestHandler now m with
-      | some h => let (w, o) := runOn w s h; (w, some o)
-      | none => (w, none),
-    resp := fun w s now m => match responseHandler now m with
-      | some h => let (w, o) := runOn w s h; (w, some o)
-      | none => (w, none),
-    genAcquire := fun w s _ tsi tsr idx => runOn w s (asRequest (genAcquireH tsi tsr idx)),
-    genExpire := fun w s _ c hard => runOn w s (asRequest (genExpireH c hard)),
-    genDpd := fun w s _ => runOn w s (asRequest generateDpdRequest),
-    genDeleteIke := fun w s _ => runOn w s (asRequest generateDeleteIkeSaRequest),
-    genRekeyIke := fun w s now => runOn w s (asRequest (generateRekeyIkeSaRequest now)),
-    newSa := fun w now isInit peerSpi myAddr peerAddr =>
-      match w.confs.find? fun c => c.1 = myAddr ∧ c.2.1 = peerAddr with
-      | none => (w, none)
-      | some (_, _, conf) =>
-        let dummy : XSa := { core := { st := 0, isInit := isInit, mySpi := [], peerSpi := [], myId := 0, peerId := 0, keyed := false,
-                                       lastResp := none, request := none, rtxAt := 0, rtx := 0, dpdAt := 0, rekeyAt := 0, deleteAt := 0, dpd := 0,
-                                       children := [], pending := [], indices := [], myAddr := myAddr, peerAddr := peerAddr, cookie := false },
-                             ext := { conf := conf } }
-        match newXSa conf now isInit peerSpi myAddr peerAddr { me := dummy, succ := none, tape := w.tape } with
-        | (.ok x, s) => (({ w with tape := s.tape }).put x.core.mySpi x.ext, some x.core)
-        | (.error _, s) => ({ w with tape := s.tape }, none) }
 
 /-! ### parsing -/
 
